@@ -426,7 +426,14 @@ impl TransactionBuilder {
         inputs: &TransactionUnspentOutputs,
         strategy: CoinSelectionStrategyCIP2,
     ) -> Result<(), JsError> {
-        let mut available_inputs: Vec<&TransactionUnspentOutput> = inputs.0.iter().collect();
+        // an offered UTxO that is already an input of the transaction, or that is offered twice, can be spent only once
+        let mut offered_outpoints: BTreeSet<&TransactionInput> = BTreeSet::new();
+        let mut available_inputs: Vec<&TransactionUnspentOutput> = Vec::new();
+        for utxo in inputs.0.iter() {
+            if !self.inputs.has_input(&utxo.input) && offered_outpoints.insert(&utxo.input) {
+                available_inputs.push(utxo);
+            }
+        }
         let have_no_inputs_in_tx = !self.inputs.has_inputs();
         let mut input_total = self.get_total_input()?;
         let mut output_total = self
